@@ -17,6 +17,7 @@ CONSTANTS
   AtomicGossip = TRUE
   AtomicExec = TRUE
   MaxDrop = 0
+  DropKinds = {"D", "R", "J"}
 INVARIANTS TypeOK Inv_SameTerms Inv_OrderIndependent Inv_OwnIndex Inv_SameQual Inv_NoLoss Inv_EchoHeals Inv_SameGroupButTransition Inv_SameGroup
 VIEW View
 CHECK_DEADLOCK FALSE
